@@ -549,3 +549,43 @@ def run_stacked_lru(seed=0):
                              'msg': f'CacheToRam(a, size={lo}) >> {between} >> CacheToRam(a, size={hi}): repeating the {hi} most recently used keys '
                                     f'executed the source again for {ran}'})
     return calls, problems
+
+
+def run_falsy_cached(seed=0):
+    """fields whose value is None / falsy behind every kind of cache layer (also a RAM cache over a disk cache, also in a tuple request): the
+    second identical call is a hit - it executes nothing upstream (C03, C08) and returns the same value (C04)"""
+    import itertools
+    scratch = tempfile.mkdtemp(prefix='cv-falsy-', dir=ensure_scratch())
+    problems, calls = [], 0
+    try:
+        for value, kind in itertools.product([None, 0, '', [], False, 0.0], ['ram', 'lru', 'disk', 'ram-over-disk', 'columns']):
+            world = SymWorld()
+            world.consts['FV.x'] = value
+            b = Builder(world, roots=[tempfile.mkdtemp(dir=scratch), tempfile.mkdtemp(dir=scratch)])
+            src = {'k': 'source', 'cls': 'FV', 'ids': ['a', 'b'], 'fields': {'x': {'args': ['i'], 'f': 'FV.x'}, 'y': {'args': ['i'], 'f': 'FV.y'}},
+                   'params': {}, 'cargs': {}, 'defaults': {}}
+            caches = {'ram': [{'k': 'ram', 'names': ['x'], 'size': None}], 'lru': [{'k': 'ram', 'names': ['x'], 'size': 2}],
+                      'disk': [{'k': 'disk', 'names': ['x'], 'root': 0}],
+                      'ram-over-disk': [{'k': 'disk', 'names': ['x'], 'root': 0}, {'k': 'ram', 'names': ['x'], 'size': None}],
+                      'columns': [{'k': 'columns', 'names': ['x'], 'root': 1, 'shard': None}]}[kind]
+            try:
+                pipe = b.layer({'k': 'chain', 'flavour': 'chain', 'layers': [src] + caches})
+                for req in ('x', ('x', 'y')):
+                    f = pipe._compile(req)
+                    first = f('a')
+                    mark = world.mark()
+                    second = f('a')
+                    calls += 2
+                    ran = sorted({c[0] for c in world.since(mark)} & {'FV.x'})
+                    if ran:
+                        problems.append({'value': repr(value), 'cache': kind,
+                                         'msg': f'a field whose value is {value!r} behind {kind}: the second identical call of {req} executed {ran} again (a cached falsy value is a hit)'})
+                        break
+                    if repr(first) != repr(second):
+                        problems.append({'value': repr(value), 'cache': kind, 'msg': f'a field whose value is {value!r} behind {kind}: first call {first!r}, second call {second!r}'})
+                        break
+            except Exception as e:
+                problems.append({'value': repr(value), 'cache': kind, 'msg': f'a field whose value is {value!r} behind {kind} raised {exc_name(e)}: {str(e)[:100]}'})
+    finally:
+        shutil.rmtree(scratch, ignore_errors=True)
+    return calls, problems
